@@ -101,6 +101,7 @@ fn alphabet() -> Vec<Sym> {
         s(A, pm(1, 9, 4, 2, false), Tok::Own),
         s(B, pm(1, 9, 4, 2, false), Tok::Own),
         s(A, pm(1, 9, 4, 0, true), Tok::Own),
+        s(A, pm(2, 9, 5, 0, true), Tok::Own),
         s(A, pm(1, 1000, 4, 0, false), Tok::Own),
         s(A, pm(1, 1001, 4, 0, false), Tok::Own),
         s(A, pm(1, 9, 64, 0, false), Tok::Own),
@@ -353,7 +354,14 @@ fn exec(env: &mut Env, h: &mut H, s: &Sym, rng: &mut Rng) -> Option<(String, Str
                 faults.push(206);
             }
             let mut target = mutable_target(&sg.k, Some(&salt));
-            if bad_target {
+            if bad_target && saltlen == 5 {
+                // signed over this 5-byte salt, but sent to the target of the same key's 4-byte-salt item
+                // (which an earlier write of this history may have stored there)
+                let mut salt4 = format!("s{}", h.n).into_bytes();
+                salt4.resize(4, b'z');
+                target = mutable_target(&sg.k, Some(&salt4));
+                faults.extend(&any);
+            } else if bad_target {
                 target[3] ^= 0x80;
                 faults.extend(&any);
             }
